@@ -5,7 +5,7 @@ from . import streams_codec, streams_ugrid
 from .common import LEAN
 
 ID = 'C20'
-PROPS_MODULE = 'Refine.Props.C20'
+PROPS_MODULE = ['Refine.Props.C20', 'Refine.Props.C20Ugrid']
 STREAMS = [streams_codec.C20_MESHB, streams_codec.C20_SOLB, streams_codec.C20_ROBUST,
            streams_codec.C20_HANG, streams_codec.C20_INDEX, streams_codec.C20_COUNT, streams_codec.C20_NAMES,
            streams_ugrid.C20_MUT, streams_ugrid.C20_ROBUST, streams_ugrid.C20_INDEX, streams_ugrid.C20_SWEEP]
@@ -53,6 +53,11 @@ def _witnesses_in_sync():
     missing = [k for k, v in streams_codec.WITNESS.items() if v not in lean]
     if missing:
         raise RuntimeError('witness bytes of checks/streams_codec.py not found in Props/C20.lean: %s' % missing)
+    text = open(os.path.join(LEAN, 'Refine', 'Props', 'C20Ugrid.lean')).read()
+    lean = set(re.findall(r'ofHex\s*"([0-9a-f]+)"', text))
+    missing = [k for k, v in streams_ugrid.WITNESS.items() if v not in lean and k != 'sweep']
+    if missing:
+        raise RuntimeError('witness bytes of checks/streams_ugrid.py not found in Props/C20Ugrid.lean: %s' % missing)
 
 
 _witnesses_in_sync()
